@@ -13,7 +13,7 @@ CLAIMS = {
                 note="source-level (MIR) claim; the vetted-extern table is part of the trusted base", ref="3.4, 4 C10"),
     "C14": dict(cat="other", tech="field-coverage of Drop/Zeroize bodies from ADT facts + heap-buffer typestate driven by TAINT from scalar parameters (ZEROIZE engine)",
                 text="Each of the 6 secret-holding types has a Drop that zeroizes every non-public field on all normal paths; every hand-written Zeroize impl writes every field and points reset to identity constants; "
-                     "every scalar-derived heap local found by taint in constant-time multiscalar multiplication and Scalar::batch_invert (3 today) is a single-allocation Vec, Zeroizing from construction or explicitly zeroized on every normal path before release, with no re-allocating operation",
+                     "every scalar-derived heap local found by taint in constant-time multiscalar multiplication and Scalar::batch_invert (3 today) is a single-allocation Vec, Zeroizing from construction or explicitly zeroized on every normal path before release, with no re-allocating operation; the single-allocation premise is itself checked: the constant-time entry point reaches Straus only after establishing that the scalar iterator's size hint is exact",
                 note="source-level; zeroize's volatile semantics, exact-size collect not reallocating, and unwind paths (noted, not claimed) are outside", ref="3.7, 4 C14"),
     "C03": dict(cat="other", tech="flag dominance, call-identity data flow, field-wise completeness (FIELDSET) over resolved MIR; visibility facts",
                 text="Structural clauses: decoder = sqrt_ratio_i(y^2-1, d*y^2+1) with its flag deciding Some, sign from input bit 255, T=X*Y after negation; encoder = as_bytes(Y/Z) with is_negative(X/Z) in bit 255; "
@@ -59,7 +59,7 @@ CLAIMS = {
                 text="Decides necessary conditions only, NOT that the result equals the sum of s_i*P_i (group arithmetic; stated as not decided): every digit position a recoding must be able to produce is written by some execution "
                      "(non_adjacent_form w=5..8: 256; as_radix_16: 64; as_radix_2w w=5..8: ceil(256/w)(+1 for 256)); in every scalar-multiplication routine - serial and AVX2 copies of variable-base, vartime double-base, Straus (both), Pippenger, "
                      "precomputed Straus, the five basepoint-table radices (>=10 routines per configuration) - every digit position the recoder may leave non-zero is read by some execution (index intervals over-approximate, so an uncovered position is "
-                     "provably never accessed). Digit ranges fitting the lookup tables are C11's select() obligations",
+                     "provably never accessed); every optional_* multiscalar routine, given a non-empty batch whose points are all None, can only return None. Digit ranges fitting the lookup tables are C11's select() obligations",
                 note="partial; a may-analysis: it proves digits are dropped, it cannot prove they are combined with the right weights", ref="10.6"),
     "C05": dict(cat="other", tech="dispatch-site rule (arm completeness, same-name sibling, argument order) + set comparison of the exported API across backend configurations",
                 text="Decides necessary conditions only, NOT byte-equality of outputs across configurations (relational, value-level; stated as not decided): each of the 9 run-time dispatchers has one arm per compiled backend kind and every arm forwards the dispatcher's own parameters "
